@@ -378,17 +378,18 @@ func VerifC09Invoke() {
 		adp.conf.Proto = "tcp"
 		adp.tarsClient = transport.NewTarsClient(c09NativeServer(), adp, adp.conf)
 	}
-	cfgs := []int{50, 100, 200}
-	eff := cfgs[vapi.Choice("configured", 3)]
+	// (values far enough apart that a wrongly derived deadline also shows under real scheduling)
+	cfgs := []int{100, 1000}
+	eff := cfgs[vapi.Choice("configured", 2)]
 	s.timeout = eff
 	ctx := current.ContextWithClientCurrent(context.Background())
 	if vapi.Bool("percall") {
-		pcs := []int{30, 150}
+		pcs := []int{50, 600}
 		eff = pcs[vapi.Choice("pc", 2)]
 		current.SetClientTimeout(ctx, eff)
 	}
 	if vapi.Bool("ctxdeadline") {
-		dls := []int{60, 250}
+		dls := []int{80, 700}
 		eff = dls[vapi.Choice("dl", 2)]
 		var cancel context.CancelFunc
 		ctx, cancel = context.WithTimeout(ctx, time.Duration(eff)*time.Millisecond)
@@ -412,7 +413,7 @@ func VerifC09Invoke() {
 	took := time.Duration(c09Now() - t0)
 	slack := c09Slack
 	if !vapi.Engine() {
-		slack = 400 * time.Millisecond
+		slack = 250 * time.Millisecond
 	}
 	vapi.Check(err != nil, "a call to a silent server fails")
 	vapi.Check(took <= time.Duration(eff)*time.Millisecond+c09DialTimeout+slack, "the call returns no later than its effective deadline plus the dial bound")
